@@ -55,6 +55,8 @@ def run(rep, tier):
     c17.freshness(al, F)
     c17.typestate(al, F)
     c17.cached_fields(al, F)
+    from . import dims
+    dims.run(rep, F, "R1.13")
     from . import c01_state
     c01_state.topology_position(rep, F)
     c01_state.label(rep, F)
